@@ -253,9 +253,15 @@ package flamego
 //@   panics true
 //@   ghost before run#0: req.chains = req.chains + 1
 
-//@ define routerWF(r *router) bool = r.notFound != nil && r.routeTrees != nil && r.staticRoutes != nil &&
-//@     (forall m string :: has(r.routeTrees, m) ==> r.routeTrees[m] != nil) &&
-//@     (forall m string, p string :: has(r.staticRoutes, m) && has(r.staticRoutes[m], p) ==> r.staticRoutes[m][p] != nil)
+// entries of the static fast-path table: plain static routes without header constraints
+//@ define shortcutOK(l route.Leaf) bool = l != nil && leafStyle(l) == 1 && leafBase(l).headerMatcher == nil && !leafBase(l).segment.Optional
+
+//@ define routerWF(r *router) bool = r.notFound != nil && r.routeTrees != nil && r.staticRoutes != nil && r.namedRoutes != nil &&
+//@     r.parser != nil && r.contextCreator != nil &&
+//@     (forall m string :: has(r.routeTrees, m) ==> isTree(r.routeTrees[m])) &&
+//@     (forall k int :: 0 <= k && k < len(httpMethods) ==> has(r.routeTrees, httpMethods[k]) && has(r.staticRoutes, httpMethods[k]) && r.staticRoutes[httpMethods[k]] != nil) &&
+//@     (forall m string, p string :: has(r.staticRoutes, m) && has(r.staticRoutes[m], p) ==> shortcutOK(r.staticRoutes[m][p])) &&
+//@     (forall n string :: has(r.namedRoutes, n) ==> r.namedRoutes[n] != nil)
 
 //@ func (*router).ServeHTTP
 //@   props C07 C02
@@ -577,3 +583,21 @@ package flamego
 //@   props C16
 //@   requires-captured index != nil
 //@   modifies nothing
+
+// ---------------------------------------------------------------------------
+// C08 / C09 / C10 / C11 / C12: the router
+// ---------------------------------------------------------------------------
+
+//@ define routeObjWF(x *Route) bool = x != nil && x.router != nil && x.leaves != nil && (forall m string :: has(x.leaves, m) ==> x.leaves[m] != nil)
+
+//@ func (*router).addRoute
+//@   props C08 C10
+//@   requires routerWF(r) && treeWF() && handler != nil
+//@   modifies maps(type(map[string]route.Leaf)), route.baseTree.leaves, route.baseTree.subtrees, elems(type([]route.Leaf)), elems(type([]route.Tree)),
+//@       route.Segment.str, route.Segment.strOnce.fired, route.Route.str, route.Route.strOnce.fired, elems(type([]string))
+//@   panics true
+//@   ensures routerWF(r) && treeWF()
+//@   ensures routeObjWF(result) && fresh(result) && result.router == r
+//@   loop 0 invariant routerWF(r) && treeWF() && (len(methods) == 0 || (len(methods) == 1 && methods[0] == method))
+//@   loop 1 invariant routerWF(r) && treeWF() && leaves != nil && fresh(leaves) && (forall m string :: has(leaves, m) ==> leaves[m] != nil)
+//@   loop 1 invariant ast != nil && routeWF(ast) && (method == "*" ==> methods == httpMethods) && (method != "*" ==> len(methods) == 1 && (exists k int :: 0 <= k && k < len(httpMethods) && httpMethods[k] == methods[0]))
